@@ -54,6 +54,39 @@ class TheCheck(Check):
         self.expect[op] = ("ac", G.ac_expected(table, flags, defcb, nodes, nlines, G.harness_cb_refuses))
         return op
 
+    def defcb_refusing_stream(self, n):
+        """a default handler that returns an error string (harness: defcb = 2) for `!fail` arguments: its
+        refusal must be reported at that line like a registered callback's, on every path — unregistered
+        directive / section tag (top level and nested), registered option without callback; the error
+        string is the parser's to free (LeakSanitizer). The Lean model has no refusing default handler:
+        implementation vs oracle only."""
+        rng = self.rng
+        ops = []
+        for _ in range(n):
+            flags = rng.randrange(4)
+            table = G.gen_table(rng)
+            nodes = G.gen_doc(rng, table, flags, pmut=0.02)
+
+            def plant(ns, depth):
+                for _ in range(rng.choice([0, 1, 1, 2])):
+                    k = rng.random()
+                    arg = [G.restyle(rng, b"!fail")] if rng.random() < 0.6 else [G.restyle(rng, b"ok")]
+                    if k < 0.6:
+                        node = Node("opt", rng.choice([b"Nope", b"zzz"]), arg + [G.gen_str_arg(rng) for _ in range(rng.randrange(0, 2))])
+                    else:
+                        nm = rng.choice([b"Nope", b"Q"])
+                        node = Node("sec", nm, arg, [Node("opt", b"inner", [G.gen_str_arg(rng)])], nm)
+                    ns.insert(rng.randrange(len(ns) + 1), node)
+                for x in ns:
+                    if x.kind == "sec" and x.body is not None and depth < 3 and G.lower(x.name) in [G.lower(o.name) for o in table]:
+                        plant(x.body, depth + 1)
+            plant(nodes, 0)
+            doc, nlines = G.render_ac(rng, nodes, 0.05)
+            op = G.ac_op(flags, 2, doc, table)
+            self.expect[op] = ("ac", G.ac_expected(table, flags, True, nodes, nlines, G.harness_cb_refuses, def_refuses=True))
+            ops.append(op)
+        return ops
+
     def systematic(self):
         rng = self.rng
         ops = []
@@ -135,6 +168,8 @@ class TheCheck(Check):
             sts.append(Stream("corpus:" + f, [l.strip() for l in open(os.path.join(corpus, f)) if l.strip()]))
         sts.append(Stream("ac-systematic", self.systematic(), note="bool spellings x casings x positions, number forms, "
                           "take counts x argument counts, scopes x placements, unknown x flags"))
+        sts.append(Stream("ac-defcb-refusing", self.defcb_refusing_stream(1500 if quick else 30000), nomodel=True,
+                          note="implementation vs oracle only (no refusing default handler in the model)"))
         sts.append(Stream("ac-tokenize", self.tokenizer_stream(5000 if quick else 60000)))
         for name, pmut, n in (("ac-conforming", 0.0, 5000 if quick else 60000), ("ac-offending", 0.12, 8000 if quick else 100000)):
             ops = []
